@@ -8,6 +8,8 @@ import (
 	"fmt"
 	"hash/fnv"
 	"math/bits"
+	"os"
+	"regexp"
 	"strings"
 	"testing"
 	"time"
@@ -239,6 +241,16 @@ func c18RunPart(env *mc.Env, p *c18Part) {
 		res.Diag(fmt.Sprintf("not judged (outside the statement): in %d rounds the NumberOfNodes gate let evictions pass although no more than NumberOfNodes nodes were under the node-level low thresholds; the gate also counts nodes between the thresholds as 'prod-underused' because an unset prod low threshold defaults to 100 %%", n))
 	}
 	env.Emit(res)
+}
+
+// c18OnlyFilter: `bin/check C18 --only REGEX` with a regex that names no unit reaches the harness as VERIF_ONLY and
+// selects parts by name (debugging aid).
+func c18OnlyFilter() *regexp.Regexp {
+	o := os.Getenv("VERIF_ONLY")
+	if o == "" || o == "round" || o == "hist" {
+		return nil
+	}
+	return regexp.MustCompile(o)
 }
 
 // c18MulMod computes a*b mod m without overflow for m < 2^62 (a < m, b < 2^20).
@@ -540,7 +552,10 @@ func TestVerifC18Round(t *testing.T) {
 		env.Emit(res)
 		return
 	}
-	c18Smoke(env, t)
+	only := c18OnlyFilter()
+	if only == nil || only.MatchString("smoke-literal-vs-constructor") {
+		c18Smoke(env, t)
+	}
 	thorough := env.Thorough()
 	var parts []*c18Part
 	parts = append(parts, c18MemPart("round-memory", env.Pick(3, 4)))
@@ -553,6 +568,19 @@ func TestVerifC18Round(t *testing.T) {
 		parts = append(parts, c18DevPart("round-deviation", 3, []c18Vec{c18AllocA}))
 		parts = append(parts, c18LoopPart("round-loop", false))
 		parts = append(parts, c18GatePart("round-gate", 3, []c18Vec{c18AllocA}, false))
+	}
+	if only != nil {
+		var sel []*c18Part
+		for _, p := range parts {
+			if only.MatchString(p.name) {
+				sel = append(sel, p)
+			}
+		}
+		parts = sel
+		if len(parts) == 0 {
+			env.Emit(mc.NewResult("C18", "no-part-of-round-selected", "enumeration"))
+			return
+		}
 	}
 	// every part gets the share of the REMAINING budget that corresponds to its share of the remaining cases, so a
 	// slow machine caps every part a little instead of starving the last ones, and parts that finish early pass
